@@ -45,6 +45,8 @@ structure W1 (α : Type) where
 structure Hit (α : Type) where
   x : α
   distance : α
+  /-- number of this callback (0-based; not observable, used to state the theorems) -/
+  k : Nat
 
 structure LoopOut (α : Type) where
   w : W1 α
@@ -64,13 +66,13 @@ def edgeLoop (pat : Pat α) (invD : α) : Nat → W1 α → α → α → LoopOu
     if w.nextDistance ≤ distance then
       match pat w.k with
       | some nd =>
-        consHit ⟨x + (w.nextDistance - w.leftover) * invD, w.advancement + w.nextDistance⟩
+        consHit ⟨x + (w.nextDistance - w.leftover) * invD, w.advancement + w.nextDistance, w.k⟩
           (edgeLoop pat invD fuel
             ⟨w.advancement + w.nextDistance, zero, nd, false, w.k + 1⟩
             (distance - w.nextDistance) (x + (w.nextDistance - w.leftover) * invD))
       | none =>
         ⟨⟨w.advancement + w.nextDistance, zero, w.nextDistance, true, w.k + 1⟩,
-          [⟨x + (w.nextDistance - w.leftover) * invD, w.advancement + w.nextDistance⟩], false⟩
+          [⟨x + (w.nextDistance - w.leftover) * invD, w.advancement + w.nextDistance, w.k⟩], false⟩
     else ⟨{ w with leftover := distance }, [], false⟩
 
 /-- 1-D `edge`: an edge of length `d` (`d < 1e-5` is skipped) -/
